@@ -25,6 +25,9 @@ def main():
     # ---- family 1: separator table: every one-character string below U+0300, a unicode sample, lengths 0 and 2
     seps = [[c] for c in range(0, 0x300)] + [[c] for c in (0x3b1, 0x4e2d, 0x1F600, 0xFF0D, 0x2212, 0x2d + 0x10000)]
     seps += [[]] + [[a, b] for a in (45, 95, 65, 44) for b in (45, 95, 48, 32)]
+    # two characters: an accepted one followed or preceded by a line break / control character / space (a pattern anchored with `$` would let a
+    # trailing newline through), and three characters
+    seps += [[a, b] for a in (45, 97, 55, 95) for b in (10, 13, 9, 0, 11, 12, 0x85, 0x2028)] + [[b, a] for a in (45, 97) for b in (10, 13, 32)] + [[45, 45, 45], [97, 10, 10]]
     so = run_impl("c19", {"job": "seps", "seps": seps})["out"]
     incons = [i for i, r in enumerate(so) if not (r[0] == r[1] == r[2] == r[3])]
     cases = ["(%s, %s)" % (lz(s), cb(r[0])) for s, r in zip(seps, so)]
@@ -94,6 +97,13 @@ def main():
     bad3 = []
     for i, o in enumerate(outs):
         bad3 += [i * 400 + k for k in parse_nlist(parse_evals(o)[0])]
+    # ... and the cleared-orders report carrying the same reference is attributed to the same local order (own: the order itself; adopted: the new one)
+    cbad = []
+    for i, (ci, qi, r) in enumerate(meta):
+        want = r["order"] if r["order"] is not None else (r["norders"] - 1 if r["strategy"] is not None and r["strategy"] != 99 else None)
+        if r.get("cleared") != want and i not in bad3:
+            cbad.append(i)
+    bad3 = sorted(set(bad3) | set(cbad))
     kinds = {"own": sum(1 for c in acases for q in c["queries"] if q[0] == "own"),
              "foreign_known_strategy": sum(1 for c in acases for q in c["queries"] if q[0] == "foreign" and isinstance(q[1], int)),
              "foreign_unknown_strategy": sum(1 for c in acases for q in c["queries"] if q[0] == "foreign" and not isinstance(q[1], int))}
@@ -101,7 +111,7 @@ def main():
               samples=[{"family": "attribution", "case": acases[0], "impl": ao[0]["res"][0]["order"]}])
     for i in bad3[:5]:
         ci, qi, r = meta[i]
-        ck.fail("C19-attribution", "an exchange update was attributed to order %s / strategy %s, not the one encoded in its reference" % (r["order"], r["strategy"]),
+        ck.fail("C19-attribution", "an exchange update was attributed to order %s / strategy %s, not the one encoded in its reference%s" % (r["order"], r["strategy"], (" (the cleared-orders report with the same reference went to order %s of %s)" % (r.get("cleared"), r.get("norders"))) if i in cbad else ""),
                 {"call": "process_current_orders", "case": acases[ci], "query_index": qi, "impl": {"order": r["order"], "strategy": r["strategy"]}})
 
     # ---- family 4 (test of the uuid1 oracle, not a proof): ids created in tight loops and from threads
